@@ -549,12 +549,14 @@ func runC20(r *Run) {
 	r.RuleDoc("C20.R2", "BuildInfoLabels: values are read with the original label key whose sanitised form is stored at the same position; every key once")
 	r.RuleDoc("C20.R3", "GetLabelsValues pairs namespace/name keys with the object's namespace/name at the same positions")
 	r.RuleDoc("C20.R5", "the label-name sanitiser keeps exactly the characters [a-zA-Z0-9_] and replaces every other character by a character of that class")
+	r.RuleDoc("C20.R6", "the condition readers behind the canary_paused / canary_failed values: IsConditionTrue is true exactly for an existing True condition; the lookup returns the found element and nil only when not found; the index function reports only a matching element")
 	r.RuleDoc("C20.R4", "LabelKeys and LabelValues of every metric are built in lock-step from the same calls on the asserted object")
 	r.Floor("C20.R1", 2+21+21) // 2 registrations, 21 families: kind + value each
 	r.Floor("C20.R2", 4)
 	r.Floor("C20.R3", 2)
 	r.Floor("C20.R4", 21)
 	r.Floor("C20.R5", 1)
+	r.Floor("C20.R6", 4)
 	r.NotCovered("that the sanitising function yields a legal Prometheus name and what happens to keys that collide after sanitising (both are exported, each with its own value); the numeric conversion's precision; the registration plumbing of kube-state-metrics and the informer store; semantics of the conditions helpers (IsConditionTrue)")
 
 	fams := c20Families(r)
@@ -575,6 +577,7 @@ func runC20(r *Run) {
 	}
 	c20BuildInfoLabels(r, build)
 	c20Sanitisers(r, build)
+	c20ConditionReaders(r)
 	c20GetLabelsValues(r, getLV)
 }
 
@@ -753,7 +756,7 @@ func c20Family1(r *Run, f c20Family, derived map[string]c20Derived, build, getLV
 			pairOK, pairWhy = false, "undecided: LabelKeys/LabelValues are not built from pair-function results, appends and literals"
 			continue
 		}
-		if why := c20PairSeq(g, ks, vs, build, getLV); why != "" {
+		if why := c20PairSeq(r, g, p, ks, vs, build, getLV); why != "" {
 			pairOK, pairWhy = false, why
 		}
 		if special == "labels" {
@@ -899,7 +902,7 @@ func c20Seq(F *frames, top *frame, p *Path, x fval, depth int) ([]c20Elem, bool)
 	return nil, false
 }
 
-func c20PairSeq(g *c20Gen, ks, vs []c20Elem, build, getLV *ssa.Function) string {
+func c20PairSeq(r *Run, g *c20Gen, p *Path, ks, vs []c20Elem, build, getLV *ssa.Function) string {
 	if len(ks) != len(vs) {
 		return fmt.Sprintf("LabelKeys has %d segments, LabelValues %d", len(ks), len(vs))
 	}
@@ -909,8 +912,12 @@ func c20PairSeq(g *c20Gen, ks, vs []c20Elem, build, getLV *ssa.Function) string 
 			return fmt.Sprintf("segment %d pairs a call result with a single element", i)
 		}
 		if k.call == nil {
-			if _, isC := constString(k.scalar); !isC {
+			key, isC := constString(k.scalar)
+			if !isC {
 				return fmt.Sprintf("key at segment %d is not a constant", i)
+			}
+			if why := c20AuxLabel(r, g, p, key, v); why != "" {
+				return why
 			}
 			continue
 		}
@@ -929,6 +936,487 @@ func c20PairSeq(g *c20Gen, ks, vs []c20Elem, build, getLV *ssa.Function) string 
 		}
 	}
 	return ""
+}
+
+// c20AuxLabel: the value paired with an auxiliary constant label key reports the status field the key
+// stands for (table): "replicaset" ← Status.Canary.ReplicaSet while a canary is recorded, "" otherwise;
+// "paused_reason" ← Reason of the Canary-Paused condition of the object's status.
+func c20AuxLabel(r *Run, g *c20Gen, p *Path, key string, v c20Elem) string {
+	x := g.F.resolve(fval{v: v.scalar, fr: v.fr})
+	if x.fr == g.fr {
+		x.v = p.Resolve(x.v)
+	}
+	switch key {
+	case "replicaset":
+		isCanaryNil := func(cv ssa.Value, _ string) bool {
+			return isNilCompareOf(cv, func(y ssa.Value) bool { return g.isLoadOf(y, "Status", "Canary") })
+		}
+		switch {
+		case p.Has(false, isCanaryNil):
+			if !g.isLoadOfF(x, "Status", "Canary", "ReplicaSet") {
+				return "label \"replicaset\" is " + x.v.String() + " on a path where status.canary is set: it must report status.canary.replicaSet"
+			}
+		case p.Has(true, isCanaryNil):
+			if s, isC := constString(x.v); !isC || s != "" {
+				return "label \"replicaset\" is not empty on a path where status.canary is nil"
+			}
+		default:
+			if !g.isLoadOfF(x, "Status", "Canary", "ReplicaSet") {
+				return "label \"replicaset\" is " + x.v.String() + ", not status.canary.replicaSet"
+			}
+		}
+		return ""
+	case "paused_reason":
+		want, _ := r.Prog.constStr(pkgAPI, "ConditionTypeEDSCanaryPaused")
+		root, path := accessPath(unwrap(x.v))
+		call, isCall := root.(*ssa.Call)
+		if !isCall || !samePath(path, []string{"Reason"}) || staticCallee(&call.Call) == nil || len(call.Call.Args) != 2 {
+			return "label \"paused_reason\" is not the Reason of a status condition"
+		}
+		cs, isC := constString(call.Call.Args[1])
+		if !isC || cs != want || !g.isPath(call.Call.Args[0], "Status") || !isPtrToNamed(call.Type(), pkgAPI, "ExtendedDaemonSetCondition") {
+			return "label \"paused_reason\" is not the Reason of the object's Canary-Paused condition"
+		}
+		return ""
+	}
+	return "undecided: auxiliary label \"" + key + "\" has no entry in the label table"
+}
+
+// ---------------------------------------------------------------------------------------------
+// R6: the condition readers the metric values rely on
+
+// c20ConditionReaders: IsConditionTrue(status, t) of both conditions packages returns true exactly when
+// the condition returned by the lookup is non-nil and has Status == True; the lookup returns nil
+// exactly when the index function reported "not found" and the element at the reported index
+// otherwise; the index function reports an index only for an element whose Type equals t.
+func c20ConditionReaders(r *Run) {
+	for _, pkg := range []string{pkgEDSCond, pkgERSCond} {
+		fn := r.Prog.Func(pkg, "IsConditionTrue")
+		if fn == nil {
+			r.Fatal("anchor %s.IsConditionTrue not found", pkg)
+			continue
+		}
+		cr := &c20CondReader{r: r, done: map[*ssa.Function]bool{}}
+		cr.isTrue(fn)
+	}
+}
+
+// c20CondReader analyses the functions that find a condition by type in status.Conditions. An "index
+// value" of a function with parameters (status, t) is the result of a verified index finder called
+// with (status, t), or of slices.IndexFunc(status.Conditions, func(c) bool { return c.Type == t });
+// it is negative exactly when no element matches. A "match fact" for i is Conditions[i].Type == t.
+type c20CondReader struct {
+	r    *Run
+	done map[*ssa.Function]bool
+}
+
+func c20CondsOf(v ssa.Value, status *ssa.Parameter) bool {
+	root, pp := accessPath(v)
+	return root == ssa.Value(status) && samePath(pp, []string{"Conditions"})
+}
+
+// indexValue: v is an index value of fn (see above).
+func (c *c20CondReader) indexValue(fn *ssa.Function, v ssa.Value) bool {
+	call, ok := v.(*ssa.Call)
+	if !ok || len(fn.Params) != 2 {
+		return false
+	}
+	status, t := fn.Params[0], fn.Params[1]
+	if strings.HasPrefix(calleeName(&call.Call), "slices.IndexFunc") && len(call.Call.Args) == 2 {
+		if !c20CondsOf(call.Call.Args[0], status) {
+			return false
+		}
+		F := newFrames(c.r.Prog)
+		top := F.top(fn)
+		var cl *ssa.Function
+		clFr := &frame{}
+		switch f := call.Call.Args[1].(type) {
+		case *ssa.Function:
+			cl = f
+		case *ssa.MakeClosure:
+			cl, _ = f.Fn.(*ssa.Function)
+			for _, bnd := range f.Bindings {
+				clFr.free = append(clFr.free, fval{v: bnd, fr: top})
+			}
+		}
+		if cl == nil || len(cl.Params) != 1 {
+			return false
+		}
+		clFr.fn = cl
+		clFr.id = -1
+		bo, isB := singleReturn(cl, 0).(*ssa.BinOp)
+		if !isB || bo.Op != token.EQL {
+			return false
+		}
+		for _, pr := range [][2]ssa.Value{{bo.X, bo.Y}, {bo.Y, bo.X}} {
+			root, pp := accessPathThroughCopies(unwrap(pr[0]))
+			if a, isA := root.(*ssa.Alloc); isA { // the by-value parameter spilled into a local
+				if st, ro := readOnlyCopy(a); ro {
+					root = st.Val
+				}
+			}
+			if root != ssa.Value(cl.Params[0]) || !samePath(pp, []string{"Type"}) {
+				continue
+			}
+			if x := F.resolve(fval{v: pr[1], fr: clFr}); x.v == ssa.Value(t) {
+				return true
+			}
+		}
+		return false
+	}
+	cal := staticCallee(&call.Call)
+	if cal == nil || !c.r.Prog.IsRuleSite(cal) || len(call.Call.Args) != 2 || call.Call.Args[0] != ssa.Value(status) || call.Call.Args[1] != ssa.Value(t) {
+		return false
+	}
+	if bt, isB := call.Type().Underlying().(*types.Basic); !isB || bt.Info()&types.IsInteger == 0 {
+		return false
+	}
+	return c.index(cal)
+}
+
+// notFound reads the facts of a path about an index value: (negative, non-negative).
+func c20NotFound(p *Path, index ssa.Value) (yes, no bool) {
+	for _, f := range p.Facts {
+		bo, isB := f.V.(*ssa.BinOp)
+		if !isB {
+			continue
+		}
+		var other ssa.Value
+		flipped := false
+		if bo.X == index {
+			other = bo.Y
+		} else if bo.Y == index {
+			other, flipped = bo.X, true
+		}
+		if other == nil {
+			continue
+		}
+		cv, isC := constInt(other)
+		if !isC {
+			continue
+		}
+		truth := f.Pol
+		switch bo.Op {
+		case token.NEQ, token.GEQ, token.LEQ:
+			truth = !f.Pol
+		}
+		op := bo.Op
+		if flipped {
+			switch op {
+			case token.LSS:
+				op = token.GTR
+			case token.GTR:
+				op = token.LSS
+			case token.LEQ:
+				op = token.GEQ
+			case token.GEQ:
+				op = token.LEQ
+			}
+		}
+		means := 0 // +1: the comparison being true means "not found", -1: means "found"
+		switch {
+		case op == token.EQL && cv == -1, op == token.LSS && cv == 0, op == token.LEQ && cv == -1:
+			means = 1
+		case op == token.NEQ && cv == -1, op == token.GEQ && cv == 0, op == token.GTR && cv == -1:
+			means = -1
+		}
+		if means == 0 {
+			continue
+		}
+		if (means == 1) == truth {
+			yes = true
+		} else {
+			no = true
+		}
+	}
+	return
+}
+
+// matches: index values i with the fact Conditions[i].Type == t on the path.
+func c20Matches(p *Path, k *keyer, status, t *ssa.Parameter) []ssa.Value {
+	var out []ssa.Value
+	for _, f := range p.Facts {
+		if !f.Pol {
+			continue
+		}
+		x, y, isEq := eqOperands(f.V)
+		if !isEq {
+			continue
+		}
+		for _, pr := range [][2]ssa.Value{{x, y}, {y, x}} {
+			if pr[1] != ssa.Value(t) {
+				continue
+			}
+			root, pp := accessPath(unwrap(pr[0]))
+			if !samePath(pp, []string{"Type"}) {
+				continue
+			}
+			S, idx, okE := c13Elem(k, root)
+			if okE && c20CondsOf(S, status) {
+				out = append(out, idx)
+			}
+		}
+	}
+	return out
+}
+
+// elemOf: v is &status.Conditions[i]; returns i.
+func c20ElemAddr(v ssa.Value, status *ssa.Parameter) (ssa.Value, bool) {
+	ia, ok := v.(*ssa.IndexAddr)
+	if !ok || !c20CondsOf(ia.X, status) {
+		return nil, false
+	}
+	return ia.Index, true
+}
+
+func (c *c20CondReader) isTrue(fn *ssa.Function) {
+	r := c.r
+	sf := shortFunc(fn)
+	pos := r.Prog.Pos(fn.Pos())
+	const cA = "true exactly for an existing True condition"
+	paths, _, ok := funcPaths(fn, 2000)
+	r.paths += len(paths)
+	if !ok || len(fn.Params) != 2 {
+		r.Undecided("C20.R6", cA, pos, sf, "path cap exceeded or unexpected signature")
+		return
+	}
+	status, t := fn.Params[0], fn.Params[1]
+	trueVal, _ := r.Prog.constStr(pkgCoreV1, "ConditionTrue")
+	if trueVal == "" {
+		trueVal = "True"
+	}
+	// the element the verdict is about: the pointer a verified lookup returned, or Conditions[i] for an index value i
+	var lookup *ssa.Call
+	for _, ci := range callsIn(fn) {
+		call, isCall := ci.(*ssa.Call)
+		if !isCall {
+			continue
+		}
+		cal := staticCallee(&call.Call)
+		if cal == nil || !r.Prog.IsRuleSite(cal) || len(call.Call.Args) != 2 || call.Call.Args[0] != ssa.Value(status) || call.Call.Args[1] != ssa.Value(t) {
+			continue
+		}
+		if _, isPtr := call.Type().Underlying().(*types.Pointer); isPtr && c.lookup(cal) {
+			lookup = call
+		}
+	}
+	// element accessor of a Status load: (kind, index value)
+	elemOfStatus := func(x ssa.Value) (isLookup bool, idx ssa.Value, ok bool) {
+		root, pp := accessPath(unwrap(x))
+		if !samePath(pp, []string{"Status"}) {
+			return false, nil, false
+		}
+		if lookup != nil && root == ssa.Value(lookup) {
+			return true, nil, true
+		}
+		if i, isE := c20ElemAddr(root, status); isE && c.indexValue(fn, i) {
+			return false, i, true
+		}
+		return false, nil, false
+	}
+	okA, whyA := true, ""
+	nTrue := 0
+	for _, p := range paths {
+		ret := returnOf(p.Blocks[len(p.Blocks)-1])
+		res := p.Resolve(ret.Results[0])
+		// S facts and found facts on this path
+		sT, sF, found, notFound := false, false, false, false
+		consider := func(v ssa.Value, pol bool, have bool) (isS bool) {
+			x, y, isEq := eqOperands(v)
+			if !isEq {
+				return false
+			}
+			for _, pr := range [][2]ssa.Value{{x, y}, {y, x}} {
+				if sv, isC := constString(pr[1]); !isC || sv != trueVal {
+					continue
+				}
+				isL, idx, okE := elemOfStatus(pr[0])
+				if !okE {
+					continue
+				}
+				if have {
+					if pol {
+						sT = true
+					} else {
+						sF = true
+					}
+				}
+				// existence of the element
+				if isL {
+					if p.Has(false, func(cv ssa.Value, _ string) bool {
+						return isNilCompareOf(cv, func(z ssa.Value) bool { return z == ssa.Value(lookup) })
+					}) {
+						found = true
+					}
+				} else {
+					nf, fd := c20NotFound(p, idx)
+					found = found || fd
+					notFound = notFound || nf
+				}
+				return true
+			}
+			return false
+		}
+		for _, f := range p.Facts {
+			consider(f.V, f.Pol, true)
+		}
+		if lookup != nil && p.Has(true, func(cv ssa.Value, _ string) bool {
+			return isNilCompareOf(cv, func(z ssa.Value) bool { return z == ssa.Value(lookup) })
+		}) {
+			notFound = true
+		}
+		// not-found facts on index values used without a Status comparison on this path
+		for _, ci := range callsIn(fn) {
+			if call, isCall := ci.(*ssa.Call); isCall && c.indexValue(fn, call) {
+				nf, _ := c20NotFound(p, call)
+				notFound = notFound || nf
+			}
+		}
+		if b, isC := constBool(res); isC {
+			switch {
+			case b:
+				nTrue++
+				if !(sT && found) {
+					okA, whyA = false, fmt.Sprintf("returns true on path [%s] without both facts: the condition exists (%v) and its Status == True (%v)", shortFacts(p), found, sT)
+				}
+			case !(notFound || sF):
+				okA, whyA = false, "returns false on path ["+shortFacts(p)+"] although the condition exists with Status True"
+			}
+			continue
+		}
+		// the comparison itself is returned: the verdict is Status == True of an element known to exist
+		if bo, isB := res.(*ssa.BinOp); isB && bo.Op == token.EQL && consider(res, true, false) && found {
+			nTrue++
+			continue
+		}
+		okA, whyA = false, "undecided: result is neither a constant nor `element.Status == True` for an element known to exist: "+res.String()
+	}
+	if nTrue == 0 && okA {
+		okA, whyA = false, "IsConditionTrue never returns true"
+	}
+	r.Check("C20.R6", cA, pos, sf, "IsConditionTrue returns true exactly when the condition of the requested type exists and its Status is True (metric values canary_paused / canary_failed rely on it)", okA, whyA)
+}
+
+// lookup verifies a pointer finder (once) and reports whether fn is one.
+func (c *c20CondReader) lookup(fn *ssa.Function) bool {
+	if len(fn.Params) != 2 || len(fn.Blocks) == 0 {
+		return false
+	}
+	if c.done[fn] {
+		return true
+	}
+	c.done[fn] = true
+	r := c.r
+	sf := shortFunc(fn)
+	pos := r.Prog.Pos(fn.Pos())
+	const cB = "lookup returns the found element, nil only when not found"
+	paths, k, ok := funcPaths(fn, 2000)
+	r.paths += len(paths)
+	if !ok {
+		r.Undecided("C20.R6", cB, pos, sf, "path cap exceeded")
+		return true
+	}
+	status, t := fn.Params[0], fn.Params[1]
+	okB, whyB := true, ""
+	nElem := 0
+	for _, p := range paths {
+		ret := returnOf(p.Blocks[len(p.Blocks)-1])
+		res := p.Resolve(ret.Results[0])
+		matched := c20Matches(p, k, status, t)
+		if isNilConst(res) {
+			// not found: a negative index value, or no matching element on the path
+			bad := len(matched) > 0
+			for _, ci := range callsIn(fn) {
+				if call, isCall := ci.(*ssa.Call); isCall && c.indexValue(fn, call) && p.Contains(call.Block()) {
+					if nf, _ := c20NotFound(p, call); !nf {
+						if !p.Has(true, func(cv ssa.Value, _ string) bool { return isNilCompareOf(cv, isParam(status)) }) {
+							bad = true
+						}
+					}
+				}
+			}
+			if bad {
+				okB, whyB = false, "returns nil on path ["+shortFacts(p)+"] although a matching condition was found"
+			}
+			continue
+		}
+		i, isE := c20ElemAddr(res, status)
+		if !isE {
+			okB, whyB = false, "undecided: returns something other than nil or &status.Conditions[i]: "+res.String()
+			continue
+		}
+		nElem++
+		good := false
+		for _, m := range matched {
+			if m == i {
+				good = true
+			}
+		}
+		if !good && c.indexValue(fn, i) {
+			_, fd := c20NotFound(p, i)
+			good = fd
+		}
+		if !good {
+			okB, whyB = false, "returns &status.Conditions[i] on path ["+shortFacts(p)+"] without knowing that element i is the condition of the requested type"
+		}
+	}
+	if nElem == 0 && okB {
+		okB, whyB = false, "the lookup never returns an element"
+	}
+	r.Check("C20.R6", cB, pos, sf, "the condition lookup returns &status.Conditions[i] only for the element of the requested type, and nil only when there is none", okB, whyB)
+	return true
+}
+
+// index verifies an index finder (once).
+func (c *c20CondReader) index(fn *ssa.Function) bool {
+	if len(fn.Params) != 2 || len(fn.Blocks) == 0 {
+		return false
+	}
+	if c.done[fn] {
+		return true
+	}
+	c.done[fn] = true
+	r := c.r
+	sf := shortFunc(fn)
+	pos := r.Prog.Pos(fn.Pos())
+	const cC = "index function reports only a matching element"
+	paths, k, ok := funcPaths(fn, 2000)
+	r.paths += len(paths)
+	if !ok {
+		r.Undecided("C20.R6", cC, pos, sf, "path cap exceeded")
+		return true
+	}
+	status, t := fn.Params[0], fn.Params[1]
+	okC, whyC := true, ""
+	nIdx := 0
+	for _, p := range paths {
+		ret := returnOf(p.Blocks[len(p.Blocks)-1])
+		res := p.Resolve(ret.Results[0])
+		matched := c20Matches(p, k, status, t)
+		if cv, isC := constInt(res); isC {
+			if cv >= 0 {
+				okC, whyC = false, "returns a constant index"
+			} else if len(matched) > 0 {
+				okC, whyC = false, "reports not-found on a path where an element's Type equals t"
+			}
+			continue
+		}
+		nIdx++
+		good := c.indexValue(fn, res) // slices.IndexFunc over the conditions with the matching predicate, or another finder
+		for _, m := range matched {
+			if m == res {
+				good = true
+			}
+		}
+		if !good {
+			okC, whyC = false, "returns index "+res.Name()+" on path ["+shortFacts(p)+"] without the fact Conditions[index].Type == t"
+		}
+	}
+	if nIdx == 0 && okC {
+		okC, whyC = false, "the index function never reports an index"
+	}
+	r.Check("C20.R6", cC, pos, sf, "an index is reported only for the element whose Type equals the requested type; not-found is never reported past a matching element", okC, whyC)
+	return true
 }
 
 // ---------------------------------------------------------------------------------------------
